@@ -183,8 +183,12 @@ def frame_configs(mgr, frame):
 
 
 def render_objects(frame, rendering, ego):
-    from ..build import obj3d
+    """`rendering`: base_link | map | base_link:derived (objects obtained through the library's interpolation instead of built afresh)"""
+    from ..build import derive, obj3d
 
+    if rendering.endswith(":derived"):
+        e_, g_ = render_objects(frame, rendering.split(":")[0], ego)
+        return [derive(o) for o in e_], [derive(o) for o in g_]
     fr = "map" if rendering == "map" else "base_link"
     ests, gts = [], []
     for i, e in enumerate(frame["ests"]):
@@ -331,7 +335,7 @@ def replay_group(arg):
     cfg, frame, specs, stages = arg
     out = []
     n = 0
-    renders = [("base_link", _egos()[0])] + [("map", e) for e in _egos()]
+    renders = [("base_link", _egos()[0])] + [("map", e) for e in _egos()] + [("base_link:derived", _egos()[0])]
     impls = []
     for rendering, ego in renders:
         n += 1
